@@ -34,8 +34,11 @@ type orderCase struct {
 	Both  bool        `json:"both"` // configure the same chain for both protocols
 	// OtherBad: the other protocol's section lists this failing plugin (and nothing else);
 	// the protocol under test lists a clean chain. Start-up must still abort.
-	OtherBad string `json:"other_bad,omitempty"`
-	LoadTwice bool  `json:"load_twice,omitempty"`
+	OtherBad  string `json:"other_bad,omitempty"`
+	LoadTwice bool   `json:"load_twice,omitempty"`
+	// MergedAt > 0 (YAML only): the plugin at this position of the list lost its "- " and became a second
+	// key of the previous item - an item naming two plugins. Start-up must abort.
+	MergedAt int `json:"merged_at,omitempty"`
 }
 
 type orderEngine struct{}
@@ -85,6 +88,9 @@ func (orderEngine) Gen(rng *rand.Rand, tier string, i int) any {
 		c.Chain = append(c.Chain, orderPlug{name, behavs[rng.Intn(len(behavs))]})
 	}
 	c.YAML = rng.Intn(3) == 0
+	if c.YAML && len(c.Chain) >= 2 && rng.Intn(3) == 0 {
+		c.MergedAt = 1 + rng.Intn(len(c.Chain)-1)
+	}
 	c.Both = rng.Intn(2) == 0
 	c.LoadTwice = rng.Intn(2) == 0
 	if rng.Intn(4) == 0 {
@@ -138,7 +144,22 @@ func (orderEngine) Run(ctx *fw.Ctx, cs any) {
 			} else {
 				pcs = job.V6
 			}
-			for _, p := range pcs {
+			for k, p := range pcs {
+				if c.MergedAt > 0 && k == c.MergedAt && len(pcs) == len(c.Chain) {
+					name := p.Name
+					if name == pcs[k-1].Name {
+						// (two different keys: the same name twice would be a YAML error of its own)
+						name = map[string]string{"syn": "syn4", "syn4": "syn", "syn6": "syn"}[name]
+						if name == "" {
+							name = "syn"
+						}
+						if c.V6 && name == "syn4" {
+							name = "syn6"
+						}
+					}
+					fmt.Fprintf(&sb, "      %s: %s\n", name, strings.Join(p.Args, " "))
+					continue
+				}
 				fmt.Fprintf(&sb, "    - %s: %s\n", p.Name, strings.Join(p.Args, " "))
 			}
 			if len(pcs) == 0 {
@@ -226,6 +247,10 @@ func (orderEngine) Run(ctx *fw.Ctx, cs any) {
 	}
 	// A v4-only plugin listed for server6 (or vice versa) is skipped with a warning, not an error; but the
 	// failing kinds fail for whichever protocol lists them - both protocols list the same chain here.
+	if c.MergedAt > 0 && c.YAML && mustFail == "" {
+		mustFail = "item naming two plugins"
+		ctx.Count("order.must_fail_merged_item", 1)
+	}
 	if c.OtherBad != "" && mustFail == "" {
 		mustFail = "bad plugin in the other protocol's section: " + c.OtherBad
 		ctx.Count("order.must_fail_other_protocol", 1)
